@@ -480,11 +480,12 @@ package helper
 // (rkind(v): its kind; rval(v, "Float") ...: the payload its accessors read and its setters write) and to the documented
 // strconv round trips. Writing encodes by kind with exactly the formatter whose parser the reader uses for that kind, with
 // the same base / bit size and the shortest float form ('g', precision -1): so what was written is read back.
-// kinds: Bool 1, Int..Int64 2-6, Uint..Uint64 7-11, Float32/64 13-14, String 24
+// kinds: Bool 1, Int..Int64 2-6, Uint..Uint64 7-11, Float32/64 13-14, String 24, Struct 25 (time.Time by its layout)
 //@ func setReflectValue
 //@ ensures[C11,C10,C19] "string-is-taken-as-is" rkind(value) == 24 ==> result == nil && rval(value, "String") == stringValue
 //@ ensures[C11,C10,C19] "signed-round-trip" 2 <= rkind(value) && rkind(value) <= 6 ==> (forall x :: stringValue == uf_Str("str_FormatInt", x, 10) ==> result == nil && rval(value, "Int") == x)
 //@ ensures[C11,C10,C19] "unsigned-round-trip" 7 <= rkind(value) && rkind(value) <= 11 ==> (forall x :: stringValue == uf_Str("str_FormatUint", x, 10) ==> result == nil && rval(value, "Uint") == x)
+//@ ensures[C11,C10,C19] "time-round-trip" rkind(value) == 25 && rtype(value) == "time.Time" ==> (forall x :: stringValue == uf_Str("str_TimeFormat", x, format) ==> result == nil && rval(value, "Time") == x)
 //@ ensures[C11,C10,C19] "float-round-trip" 13 <= rkind(value) && rkind(value) <= 14 ==> (forall x real :: stringValue == uf_Str("str_FormatFloat", x, 103, 0 - 1, kindbits(rkind(value))) ==> result == nil && rval(value, "Float") == x)
 
 // columns are mapped by header name: ColumnIndex is the position of the field's header in the header row, -1 if absent
@@ -522,6 +523,7 @@ package helper
 //@ ensures[C11,C10,C19] "bool" rkind(value) == 1 ==> result1 == nil && result0 == uf_Str("str_FormatBool", rval(value, "Bool"))
 //@ ensures[C11,C10,C19] "signed-decimal" 2 <= rkind(value) && rkind(value) <= 6 ==> result1 == nil && result0 == uf_Str("str_FormatInt", rval(value, "Int"), 10)
 //@ ensures[C11,C10,C19] "unsigned-decimal" 7 <= rkind(value) && rkind(value) <= 11 ==> result1 == nil && result0 == uf_Str("str_FormatUint", rval(value, "Uint"), 10)
+//@ ensures[C11,C10,C19] "time-by-the-column-layout" rkind(value) == 25 && rtype(value) == "time.Time" ==> result1 == nil && result0 == uf_Str("str_TimeFormat", rval(value, "Time"), format)
 //@ ensures[C11,C10,C19] "shortest-float-that-reads-back" 13 <= rkind(value) && rkind(value) <= 14 ==> result1 == nil && result0 == uf_Str("str_FormatFloat", rval(value, "Float"), 103, 0 - 1, kindbits(rkind(value)))
 
 //@ func Csv.writeHeaderToCsvWriter
